@@ -42,6 +42,11 @@ theorem deliverRouted_nil (c : Ctx) (h : c.routed = []) : c.deliverRouted = c :=
   cases c
   simp_all
 
+/-- the news that a subscriber's account is gone is a matter for group topics: a `me` topic handles it like any other status -/
+theorem goneMember_me (t : Topic) (p : PresMsg) (h : t.isMe = true) : goneMember t p = false := by
+  unfold goneMember Topic.isGrpCat
+  simp [h]
+
 /-! ### one "online" taken off the queue by a `me` topic which lists the sender as an enabled contact -/
 
 theorem deliverOff_on (c : Ctx) (t : Topic) (x : String) (wr ponl : Bool)
@@ -71,7 +76,7 @@ theorem deliverOff_on (c : Ctx) (t : Topic) (x : String) (wr ponl : Bool)
   show _ ∧ _ ∧ _ ∧ _
   have hc' : c' = c.deliverOff t.name { what := "on", src := x, wantReply := wr } := rfl
   unfold Ctx.deliverOff procPresReq at hc'
-  simp only [hl, hact, Bool.false_eq_true, if_false] at hc'
+  simp only [hl, hact, goneMember_me t _ hme, Bool.false_eq_true, if_false] at hc'
   clear htop
   generalize hr : procPresReqCore t x "on" "" wr = r at hp1 hp2 hp3 hname hisme hinact hother hc'
   obtain ⟨t', fwd, reply⟩ := r
@@ -178,7 +183,7 @@ theorem deliverOff_off (c : Ctx) (t : Topic) (x : String) (ponl : Bool)
   have hname : (procPresReqCore t x "off" "" false).1.name = t.name := by rw [htop]
   have hc' : c' = c.deliverOff t.name { what := "off", src := x } := rfl
   unfold Ctx.deliverOff procPresReq at hc'
-  simp only [hl, hact, Bool.false_eq_true, if_false] at hc'
+  simp only [hl, hact, goneMember_me t _ hme, Bool.false_eq_true, if_false] at hc'
   clear htop
   generalize hr : procPresReqCore t x "off" "" false = r at hp1 hp3 hname hc'
   obtain ⟨t', fwd, reply⟩ := r
